@@ -144,7 +144,7 @@ func (a *An) currentErrLeaves() map[string][]string {
 		if a.C.isNew(f) && a.C.owner(f) != f {
 			continue // judged as part of its caller
 		}
-		out[a.C.Name(f)] = sortedKeys(el.of(f))
+		out[a.C.alias(f)] = sortedKeys(el.of(f))
 	}
 	return out
 }
@@ -210,7 +210,7 @@ func (a *An) closedTables(prop string) {
 	fp := a.fnProps()
 	nfn := 0
 	for _, f := range a.reachableFns(apiRoots...) {
-		name := a.C.Name(f)
+		name := a.C.alias(f)
 		cl, ok := leaves[name]
 		if !ok || !strings.Contains(fp[f], prop) {
 			continue
@@ -246,12 +246,12 @@ func (a *An) closedTables(prop string) {
 					}
 					for _, g := range a.C.Callees(call) {
 						g = a.C.unwrap(g)
-						gl, has := leaves[a.C.Name(g)]
+						gl, has := leaves[a.C.alias(g)]
 						if !has || g == f {
 							continue
 						}
 						gAllow := map[string]bool{}
-						for _, w := range frozenErrLeaves[a.C.Name(g)] {
+						for _, w := range frozenErrLeaves[a.C.alias(g)] {
 							gAllow[w] = true
 						}
 						for _, w := range gl {
@@ -382,7 +382,7 @@ func (a *An) currentEvents() map[string][]string {
 				if !isEv {
 					continue
 				}
-				if _, self := eventFns[a.C.Name(f)]; self {
+				if _, self := eventFns[a.C.alias(f)]; self {
 					continue // the delivery functions calling each other
 				}
 				args := call.Common().Args
@@ -394,7 +394,7 @@ func (a *An) currentEvents() map[string][]string {
 				if idx < len(args) {
 					v = a.C.Term(args[idx])
 				}
-				o := a.C.Name(a.C.owner(f))
+				o := a.C.alias(a.C.owner(f))
 				if cnt[o] == nil {
 					cnt[o] = map[string]int{}
 				}
@@ -451,11 +451,11 @@ func (a *An) closedEvents(prop string) {
 // new function, the functions that call it (a helper shared by several callers writes on behalf of each of them).
 func (a *An) ownersOf(f *ssa.Function, depth int) []string {
 	if !a.C.isNew(f) || depth > 3 {
-		return []string{a.C.Name(f)}
+		return []string{a.C.alias(f)}
 	}
 	sites := a.CallSites(f)
 	if len(sites) == 0 {
-		return []string{a.C.Name(f)}
+		return []string{a.C.alias(f)}
 	}
 	set := map[string]bool{}
 	for _, cs := range sites {
@@ -467,7 +467,7 @@ func (a *An) ownersOf(f *ssa.Function, depth int) []string {
 		}
 	}
 	if len(set) == 0 {
-		return []string{a.C.Name(f)}
+		return []string{a.C.alias(f)}
 	}
 	return sortedKeys(set)
 }
@@ -554,10 +554,12 @@ func (a *An) currentStateCallers() (map[string][]string, map[string][]string) {
 				continue
 			}
 			for _, o := range a.ownersOf(cs.Parent(), 0) {
-				set[o] = true
+				if o != a.C.alias(g) {
+					set[o] = true
+				}
 			}
 		}
-		name := a.C.Name(g)
+		name := a.C.alias(g)
 		callers[name] = sortedKeys(set)
 		fields[name] = fw
 	}
